@@ -10,6 +10,7 @@ from rv import util
 from rv.model import codecs as K
 from rv.util import B, CLASSES, call, exc_matches, mk, rb
 
+AMBIENT = ['bytealigned']      # an option this property does not depend on: a quarter of the cases run with it switched on
 PROP = 'C05'
 SHARDS = {'quick': 4, 'thorough': 16}
 RULE = ("random format ASTs: tokens of every dtype with length spelled 'name:n' / 'namen' / 'name:kw' (keyword), hex/bin/oct "
